@@ -31,7 +31,7 @@ func writeReplay(w *World, id string, ob *Obligation, vc *VC, path string, reaso
 	if vc != nil && (ob.Status == "sat" || ob.Approx) {
 		b.WriteString(w.db.witnessText(vc, ob))
 	}
-	if vc != nil && (ob.Status == "sat" || ob.Approx) {
+	if vc != nil && ob.Status != "unsat" {
 		if tmpl := replayers[id]; tmpl != nil {
 			ok, text := tmpl(w, ob, vc)
 			b.WriteString("\n--- replay on the real code ---\n")
@@ -93,6 +93,10 @@ func writeEvidence(w *World, pc *PropConfig, id, tier string, seed int, results 
 		for k := range r.VC.usedSpecs {
 			if strings.HasPrefix(k, "contract:") {
 				key := k[len("contract:"):]
+				if strings.HasPrefix(key, "invariant assumed") {
+					trusted[key] = true
+					continue
+				}
 				if ct := w.db.ByKey[key]; ct != nil && ct.Trusted {
 					trusted["assumed contract: "+key] = true
 				} else if ct != nil && ct.NoVerify {
@@ -163,6 +167,9 @@ func writeEvidence(w *World, pc *PropConfig, id, tier string, seed int, results 
 	ev := evidence{PropertyID: id, Tier: tier, Seed: seed, Level: lvl, Coverage: cov, Assumptions: pc.Assumptions, WallS: round3(wall), Violations: violations}
 	if ev.Assumptions == nil {
 		ev.Assumptions = []string{}
+	}
+	if os.Getenv("VERIF_NO_EVIDENCE") != "" {
+		return
 	}
 	b, _ := json.MarshalIndent(ev, "", " ")
 	os.MkdirAll(filepath.Join(w.verifDir, "evidence"), 0o755)
